@@ -158,6 +158,7 @@ func (e *Eng) prescan() {
 	for _, g := range e.cs.Ghost {
 		e.reg.addComp(g.Comp, g.Sort, true)
 	}
+	e.reg.freeze()
 }
 
 func (e *Eng) noteT(t types.Type) {
@@ -219,14 +220,37 @@ func matchComp(pat, name string) bool {
 }
 
 func (e *Eng) compsMatching(pats []string) []string {
+	out, _ := e.modSpec(pats)
+	return out
+}
+
+// modSpec resolves a modifies list. A pattern may carry the suffix @fresh: the component may
+// only change at references (or array ids) allocated after the function was entered.
+func (e *Eng) modSpec(pats []string) ([]string, map[string]bool) {
 	var out []string
+	fresh := map[string]bool{}
 	for _, n := range e.reg.compOrd {
+		hit, full := false, false
 		for _, p := range pats {
-			if matchComp(p, n) {
-				out = append(out, n)
-				break
+			fo := strings.HasSuffix(p, "@fresh")
+			if matchComp(strings.TrimSuffix(p, "@fresh"), n) {
+				hit = true
+				if !fo {
+					full = true
+				}
+			}
+		}
+		if hit {
+			out = append(out, n)
+			if !full && strings.HasPrefix(e.reg.comps[n].Sort, "(Array Int ") {
+				fresh[n] = true
 			}
 		}
 	}
-	return out
+	return out, fresh
+}
+
+// frameFact states that component (term) now equals old at every index <= w.
+func frameFact(now, old, w string) string {
+	return fmt.Sprintf("(forall ((r Int)) (! (=> (<= r %s) (= (select %s r) (select %s r))) :pattern ((select %s r))))", w, now, old, now)
 }
